@@ -9,7 +9,7 @@ def title(name):
     rep=os.path.join(V,'seeded',name,'SEED_REPORT.md')
     if not os.path.exists(rep): return ''
     t=open(rep).read()
-    k=1 if n in (1,3) else 2
+    k=1 if n % 2 == 1 else 2
     m=re.search(r'^#+\s*\**Seed\s*%d\b[^\n]*'%k, t, re.M)
     if not m: return ''
     s=re.sub(r'^#+\s*\**Seed\s*%d\s*[—:\-–]*\s*'%k,'',m.group(0)).strip('* ').replace('|','/')
